@@ -19,6 +19,11 @@ CLAIMED = {
         text="Unbounded theorems: every control point fed to the bounds computation lies in the emitted box widened by the half unit otRound may move an edge; quantised edges are multiples of the step, at most one step outward; no box iff nothing painted; the assertion is unreachable. Model tied to write_font._bounds/_quantize_bounding_rect by evaluating it in Coq on generated paint trees and glyph environments; the implementation's boxes are also judged against placements computed by an independent COLR semantics.",
         ref="DESIGN.md 8 C05",
     ),
+    "C10": dict(
+        technique="machine-checked proof in Coq (round-trip theorems for the csv dialect pair, the %04x codec and GlyphMapping rows, with refutation witnesses for the side conditions) + correspondence by vm_compute + field-coverage table from the source",
+        text="Unbounded theorems: read_text(write_rows rs) = rs for all rows whose fields have no CR/LF and no unquoted leading space (both conditions shown necessary by machine-checked counter-examples = known finding F4); parse_hex(hex04 n) = n for every n; parse_row(csv_row g) = g for every GlyphMapping incl. the empty codepoint list. The csv model (a state machine) is tied to Python's csv module and to glyphmap.csv_line/load_from by evaluating it in Coq on random rows and arbitrary text. Config precedence and write/load symmetry are exercised for every FontConfig field x {neither,file,flag,both} with real absl flags; a table extracted from config.py's ast requires every field to be written, read, flagged and passed on. File-name recovery, glyph-name legality/distinctness (known finding F3), parts JSON and response files are checked on samples.",
+        ref="DESIGN.md 8 C10",
+    ),
     "C14": dict(
         technique="machine-checked proof in Coq (lra/lia theorems about ppem, bitmap metrics with Python's half-even round, int8 nudge, strike runs, offsets) + correspondence by vm_compute",
         text="Unbounded theorems over all integer metrics: ppem within 1/2 of upem*h/em; accepted metrics are representable; the bitmap's vertical centre is within 7/4 px (3/4 without the int8 nudge) of the scaled em-box centre and its edges follow with the explicit size mismatch; horizontal centring within 3/2 px for the repaired code and a machine-checked refutation for the original (finding F8, fixed); strikes are maximal runs of consecutive gids partitioning the sorted glyph list; offsets contiguous with 9+len records. Tied to bitmap_tables by evaluating the model in Coq on the same random metrics/images, and to make_cbdt_table/make_sbix_table by running them on fake fonts with real PNG bytes (image bytes, sizes, run structure).",
